@@ -247,7 +247,7 @@ func runC05(r *Run, replay *Case) {
 	}
 	// the same component several times with DIFFERENT props, the component forwarding them to a nested component: every instance receives
 	// exactly its own props at every level (how the instances are written x how the props are forwarded x depth)
-	for _, how := range []string{"separate", "loop", "loop-tag", "separate-tag"} {
+	for _, how := range []string{"separate", "loop", "loop-tag", "separate-tag", "loop-samename", "loop-tag-samename"} {
 		for _, fwd := range []string{"bound", "interp", "tag-bound", "vhtml"} {
 			for _, depth := range []int{2, 3} {
 				vals := []string{"one", "two", "three"}
@@ -266,7 +266,13 @@ func runC05(r *Run, replay *Case) {
 					page.WriteString(`<template v-for="v in vals" include="components/Card.vuego" :t="v"></template>`)
 				case "loop-tag":
 					page.WriteString(`<div v-for="v in vals"><card :t="v"></card></div>`)
+				// the bound prop is NAMED like the loop variable: it is a binding of the component instance, not of the includer
+				case "loop-samename":
+					page.WriteString(`<template v-for="t in vals" include="components/Card.vuego" :t="t"></template>`)
+				case "loop-tag-samename":
+					page.WriteString(`<div v-for="t in vals"><card :t="t"></card></div>`)
 				}
+				page.WriteString(`<i>«after:{{ t }}|{{ v }}»</i>`)
 				var inner string
 				switch fwd {
 				case "bound":
@@ -283,7 +289,7 @@ func runC05(r *Run, replay *Case) {
 					badge = `<template include="components/Leaf.vuego" :v="label"></template>`
 				}
 				ff := map[string]string{"p.vuego": page.String(), "components/Card.vuego": `<section>«card:{{ t }}»` + inner + `</section>`, "components/Badge.vuego": badge, "components/Leaf.vuego": `<u>«leaf:{{ v }}»</u>`}
-				d := map[string]any{"vals": []any{"one", "two", "three"}}
+				d := map[string]any{"vals": []any{"one", "two", "three"}, "t": "OT"}
 				rr := renderPage(ff, "p.vuego", d, vuego.WithComponents())
 				pendingPages = append(pendingPages, pageCase("forwarding", ff, map[string]string{"card": "components/Card.vuego", "badge": "components/Badge.vuego", "leaf": "components/Leaf.vuego"}, "p.vuego", d, "forward:"+fwd))
 				var want, got []string
@@ -296,6 +302,7 @@ func runC05(r *Run, replay *Case) {
 						want = append(want, "badge:"+v)
 					}
 				}
+				want = append(want, "after:OT|")
 				for _, m := range c05Re.FindAllStringSubmatch(rr.Out, -1) {
 					got = append(got, m[1])
 				}
